@@ -178,9 +178,10 @@ impl WorkerState {
         if worker_id == self.worker_id {
             return Some(&self.configuration.hostname);
         }
+        // The address is "<hostname>:<port>"; the hostname itself may contain ':' (IPv6 address)
         self.worker_addresses
             .get(&worker_id)
-            .and_then(|address| address.split(':').next())
+            .map(|address| address.rsplit_once(':').map_or(address.as_str(), |x| x.0))
     }
 
     pub fn new_worker(&mut self, other_worker: NewWorkerMsg) {
